@@ -751,8 +751,10 @@ def cli_registrations(repo, m):
                     for _ in range(2):
                         t = Subst({k_: _copy.deepcopy(v_) for k_, v_ in locals1.items()}).visit(t)
                     return _TypeOfMember(repo, m).visit(Subst(mapping).visit(t))
+                import copy as _copy2
                 for c, pos, kw, recv in own:
-                    out.append((f, c, [expand(t) for t in pos], {k: expand(v) for k, v in kw.items()}, expand(recv)))
+                    # the receiver keeps its name (a parser created inside the helper is known by the variable it is bound to)
+                    out.append((f, c, [expand(t) for t in pos], {k: expand(v) for k, v in kw.items()}, Subst(mapping).visit(_copy2.deepcopy(recv))))
         else:
             for c, pos, kw, recv in own:
                 out.append((f, c, pos, kw, recv))
@@ -1141,14 +1143,19 @@ def subcommand_dispatch(ctx, rid, modname, floor=2):
                 and isinstance(c.func.value, ast.Name) and c.func.value.id == p0}
         if opts:
             helper_opts[f.name] = {o for o in opts if o}
-    for n in walk_no_nested(aa.node):
+    # sub-parsers may be created in add_arguments itself or in helper functions of the module (one per sub-command)
+    scan_nodes = [n_ for f_ in {id(x): x for x in m.functions.values()}.values() for n_ in walk_no_nested(f_.node)]
+    for n in scan_nodes:
         if isinstance(n, ast.Assign) and len(n.targets) == 1 and isinstance(n.targets[0], ast.Name) and isinstance(n.value, ast.Call) \
                 and isinstance(n.value.func, ast.Attribute):
             if n.value.func.attr == "add_parser" and n.value.args:
                 try:
-                    parsers[n.targets[0].id] = {"name": ev.const(n.value.args[0], m), "opts": set(), "via": ast.unparse(n.value.func.value)}
+                    entry_ = {"name": ev.const(n.value.args[0], m), "opts": set(), "via": ast.unparse(n.value.func.value)}
                 except AnalysisError:
                     raise AnalysisError(f"{modname}.add_arguments: sub-command name is not a constant: {ast.unparse(n.value.args[0])[:60]}")
+                if n.targets[0].id in parsers and parsers[n.targets[0].id]["name"] != entry_["name"]:
+                    raise AnalysisError(f"{modname}: the name {n.targets[0].id} denotes two different sub-parsers in different functions")
+                parsers[n.targets[0].id] = entry_
             elif n.value.func.attr == "add_subparsers":
                 for k in n.value.keywords:
                     if k.arg == "dest":
